@@ -90,12 +90,22 @@ func (mgr *blsManager) VerifyAggregatedOne(pubs []PublicKey, m Message, sig Sign
 	if !ok {
 		return ErrInvalidSig
 	}
+	// The identity element is not a signature, and the sum of no keys (or of keys that cancel) is not a
+	// key: the pairing code dereferences nil on either, so a header carrying the compressed point at
+	// infinity as its aggregate signature (or no vote at all) would crash the verifier instead of failing.
+	if isIdentitySig(osig.sig) || isIdentityPub(g2pubs.AggregatePublicKeys(originPubs)) {
+		return ErrSigMismatch
+	}
 	ok = osig.sig.VerifyAggregateCommon(originPubs, m)
 	if ok {
 		return nil
 	}
 	return ErrSigMismatch
 }
+
+func isIdentitySig(s *g2pubs.Signature) bool { return s == nil || s.GetPoint().IsZero() }
+
+func isIdentityPub(p *g2pubs.PublicKey) bool { return p == nil || p.GetPoint().IsZero() }
 
 // VerifyAggregatedN verifies each public key against each message.
 func (mgr *blsManager) VerifyAggregatedN(pubs []PublicKey, ms []Message, sig Signature) error {
